@@ -1,6 +1,7 @@
 // Shared harness plumbing: failure type, stats/evidence, case files, CPU watchdog, command line.
 // No dependency on the library under test.
 #pragma once
+#include <ctime>
 #if defined(__has_feature)
 #if __has_feature(address_sanitizer)
 #include <sanitizer/common_interface_defs.h>
@@ -150,6 +151,7 @@ struct Stats {
 
 // ---------------------------------------------------------------- context / command line
 struct Ctx {
+    double first_fail_cpu = -1; // CPU time of the first failing case of the running property (shrink budget), reset by pbt()
     std::string mode = "pbt";
     std::string stats_path;
     std::string replay_dir = ".";   // where failing cases are written
@@ -257,6 +259,12 @@ inline std::string read_file(const std::string &p) {
 template <class F>
 inline void run_case(const std::string &serialised, F body) {
     Ctx &c = ctx();
+    // Shrinking budget: once a failure has been seen, shrink candidates are tried for at most `shrink_cpu_s` of CPU time; after
+    // that every further candidate is answered "passes" without being run, which ends the shrink at the smallest failing case
+    // found so far (that case, not rapidcheck's printout, is what gets saved and re-confirmed 3x by the driver).
+    double &first_fail_cpu = c.first_fail_cpu; const double shrink_cpu_s = 90;
+    if(first_fail_cpu >= 0 && (double)clock() / CLOCKS_PER_SEC - first_fail_cpu > shrink_cpu_s) return;
+    struct Mark { double *p; bool armed; ~Mark() { if(armed && *p < 0) *p = (double)clock() / CLOCKS_PER_SEC; } } mark{&first_fail_cpu, true};
     begin_case(serialised);
     try {
         body();
@@ -266,6 +274,7 @@ inline void run_case(const std::string &serialised, F body) {
         if(const char *tf = getenv("VERIF_TRACE_FAIL")) { fprintf(stderr, "TRACE-FAIL %s\n", f.msg.substr(0, 300).c_str()); fflush(stderr); if(tf[0] == '/') { FILE *fo = fopen(tf, "wb"); if(fo) { fwrite(serialised.data(), 1, serialised.size(), fo); fclose(fo); } } } // triage aid: every failing candidate, incl. shrink steps
         throw;
     }
+    mark.armed = false;
     end_case_ok();
 }
 
